@@ -93,6 +93,26 @@ Qed.
 Lemma dedup_NoDup l : NoDup (dedup l).
 Proof. apply dedup_aux_NoDup. Qed.
 
+Lemma NoDup_app_inv {A} (a b : list A) :
+  NoDup (a ++ b) -> NoDup a /\ NoDup b /\ (forall x, In x a -> ~ In x b).
+Proof.
+  induction a as [|x a IH]; cbn; intros H.
+  - repeat split; [constructor|assumption|tauto].
+  - inversion H as [|? ? Hn Hnd]; subst. destruct (IH Hnd) as [H1 [H2 H3]]. repeat split.
+    + constructor; [|assumption]. intros Hi. apply Hn. apply in_app_iff. now left.
+    + assumption.
+    + intros y [->|Hy]; [|auto]. intros Hi. apply Hn. apply in_app_iff. now right.
+Qed.
+
+Lemma NoDup_app_intro {A} (a b : list A) :
+  NoDup a -> NoDup b -> (forall x, In x a -> ~ In x b) -> NoDup (a ++ b).
+Proof.
+  induction a as [|x a IH]; cbn; intros Ha Hb Hd; [assumption|].
+  inversion Ha; subst. constructor.
+  - rewrite in_app_iff. intros [H|H]; [contradiction|]. eapply Hd; eauto.
+  - apply IH; auto.
+Qed.
+
 (* ---------- insertion sort is a permutation ---------- *)
 From Coq Require Import Permutation.
 
@@ -171,4 +191,87 @@ Proof.
   - intros u v Hv Hu He. apply Hord; try assumption.
     unfold preds. apply in_map_iff. exists (u, v). split; [reflexivity|].
     apply filter_In. split; [assumption|]. cbn. apply str_eqb_refl.
+Qed.
+
+(* ---------- reachability is sound: whatever close / descendants / ancestors return is joined by a path ---------- *)
+Inductive gpath (g : graph) : str -> str -> Prop :=
+| gpath_refl x : gpath g x x
+| gpath_step x y z : In (x, y) (edges g) -> gpath g y z -> gpath g x z.
+
+Lemma gpath_trans g x y z : gpath g x y -> gpath g y z -> gpath g x z.
+Proof. induction 1; intros H2; [assumption|]. econstructor; eauto. Qed.
+
+Lemma gpath_snoc g x y z : gpath g x y -> In (y, z) (edges g) -> gpath g x z.
+Proof. intros H1 H2. eapply gpath_trans; [exact H1|]. econstructor; [exact H2|constructor]. Qed.
+
+Lemma succs_In g n y : In y (succs g n) <-> In (n, y) (edges g).
+Proof.
+  unfold succs. rewrite in_map_iff. split.
+  - intros [[a b] [E H]]. cbn in E. subst b. apply filter_In in H as [H1 H2]. cbn in H2. apply str_eqb_eq in H2. now subst a.
+  - intros H. exists (n, y). split; [reflexivity|]. apply filter_In. split; [assumption|]. cbn. apply str_eqb_refl.
+Qed.
+
+Lemma expand_sound g seen x : In x (expand g seen) -> In x seen \/ exists s0, In s0 seen /\ In (s0, x) (edges g).
+Proof.
+  unfold expand.
+  assert (H : forall l acc, In x (fold_left (fun acc n => union_str acc (succs g n)) l acc) ->
+                            In x acc \/ exists s0, In s0 l /\ In (s0, x) (edges g)).
+  { induction l as [|n l IH]; intros acc Hin; cbn in Hin; [now left|].
+    apply IH in Hin as [Hin|[s0 [H1 H2]]].
+    - apply union_str_In in Hin as [Hin|Hin]; [now left|]. right. exists n. split; [now left|]. now apply succs_In.
+    - right. exists s0. split; [now right|assumption]. }
+  intros Hin. apply H in Hin. exact Hin.
+Qed.
+
+Lemma close_sound g : forall fuel seen x, In x (close fuel g seen) -> exists s0, In s0 seen /\ gpath g s0 x.
+Proof.
+  induction fuel as [|fuel IH]; intros seen x Hin; cbn in Hin.
+  - exists x. split; [assumption|constructor].
+  - apply IH in Hin as [s1 [H1 H2]]. apply expand_sound in H1 as [H1|[s0 [H0 He]]].
+    + eauto.
+    + exists s0. split; [assumption|]. econstructor; eauto.
+Qed.
+
+Lemma descendants_sound g n x : In x (descendants g n) -> exists y, In (n, y) (edges g) /\ gpath g y x.
+Proof.
+  unfold descendants, reach. intros H. apply filter_In in H as [H _]. apply close_sound in H as [s0 [H1 H2]].
+  rewrite dedup_In in H1. apply in_flat_map in H1 as [m [[<-|[]] H1]]. apply succs_In in H1. eauto.
+Qed.
+
+Lemma gpath_rev g x y : gpath (rev_graph g) x y -> gpath g y x.
+Proof.
+  induction 1; [constructor|]. eapply gpath_snoc; [eassumption|]. cbn in H. apply in_map_iff in H as [[a b] [E H]].
+  cbn in E. inversion E; subst. exact H.
+Qed.
+
+Lemma ancestors_sound g n x : In x (ancestors g n) -> gpath g x n.
+Proof.
+  unfold ancestors. intros H. apply descendants_sound in H as [y [H1 H2]]. apply gpath_rev in H2.
+  eapply gpath_snoc; [exact H2|]. cbn in H1. apply in_map_iff in H1 as [[a b] [E H1]]. cbn in E. inversion E; subst. exact H1.
+Qed.
+
+(* the layers of a successful Kahn run partition the remaining nodes *)
+Lemma filter_NoDup {A} (f : A -> bool) l : NoDup l -> NoDup (filter f l).
+Proof.
+  induction 1; cbn; [constructor|]. destruct (f x); [constructor; [|assumption]|assumption].
+  intros Hin. apply filter_In in Hin. tauto.
+Qed.
+
+Lemma kahn_partition g : forall fuel rem ls, NoDup rem -> kahn fuel g rem = Some ls ->
+  NoDup (concat ls) /\ (forall v, In v (concat ls) <-> In v rem).
+Proof.
+  induction fuel as [|fuel IH]; intros rem ls Hnd H.
+  - destruct rem; cbn in H; [|discriminate]. inversion H; subst. cbn. split; [constructor|tauto].
+  - destruct rem as [|r0 rem0]; [cbn in H; inversion H; subst; cbn; split; [constructor|tauto]|].
+    rewrite kahn_cons in H. set (rem := r0 :: rem0) in *.
+    destruct (filter (ready g rem) rem) as [|a b] eqn:El; [discriminate|]. set (layer := a :: b) in *.
+    destruct (kahn fuel g (diff_str rem layer)) as [ls'|] eqn:Ek; [|discriminate]. inversion H; subst ls. clear H.
+    assert (Hlnd : NoDup layer) by (subst layer; rewrite <- El; now apply filter_NoDup).
+    assert (Hlsub : forall v, In v layer -> In v rem).
+    { intros v Hv. subst layer. rewrite <- El in Hv. now apply filter_In in Hv. }
+    destruct (IH (diff_str rem layer) ls' (filter_NoDup _ _ Hnd) Ek) as [H1 H2]. cbn [concat]. split.
+    + apply NoDup_app_intro; auto. intros x Hx Hx'. apply H2 in Hx'. apply diff_str_In in Hx'. tauto.
+    + intros v. rewrite in_app_iff, H2, diff_str_In. split.
+      * intros [Hv|[Hv _]]; auto.
+      * intros Hv. destruct (in_dec str_eq_dec v layer); [now left|right; tauto].
 Qed.
